@@ -56,7 +56,7 @@ MATCH = [":is", ":contains", ":matches"]
 
 class Definition:
     __slots__ = ("conditions", "actions", "matchtype", "tests", "acts", "strings",
-                 "numbers", "exts", "kinds", "_update", "_names")
+                 "numbers", "exts", "kinds", "_update", "_names", "_prefixes")
 
     def __init__(self):
         self.conditions = []
@@ -314,4 +314,6 @@ def neutralise(d: Definition, chars='"\\'):
         n._update = neutralise(d._update, chars)
     if getattr(d, "_names", None) is not None:
         n._names = d._names
+    if getattr(d, "_prefixes", None) is not None:
+        n._prefixes = d._prefixes
     return n
